@@ -16,6 +16,7 @@ class C15(Prop):
                    "distinct motifs evaluated on one evaluator carry distinct names (the property's own proviso)"]
     model_scope = "modelled: equations/automated_equation.py in full, including both caches"
     budgets = {"quick": 110, "thorough": 1500}
+    recheck = {"quick": 8, "thorough": 40}
     search_budget = {"quick": 200, "thorough": 1500}
 
     def _graph(self, rng, tier):
